@@ -66,6 +66,12 @@ def do_op(chan, op):
             m.add_string(b"xy")
             m.rewind()
             chan._feed(m)
+        elif op == "feed_empty":
+            # a CHANNEL_DATA message with an empty payload (legal on the wire)
+            m = Message()
+            m.add_string(b"")
+            m.rewind()
+            chan._feed(m)
         elif op == "feed_err":
             m = Message()
             m.add_int(1)
@@ -151,7 +157,7 @@ def scenarios(tier):
     out = []
     if tier == "quick":
         inits = [(0, 0), (1, 0), (0, 1), (2, 1)]
-        ops = ["feed_out", "feed_err", "recv1", "recv_all", "recv_err_all", "eof"]
+        ops = ["feed_out", "feed_err", "recv1", "recv_all", "recv_err_all", "eof", "feed_empty"]
         for (io, ie) in inits:
             for a, b in itertools.combinations_with_replacement(ops, 2):
                 out.append((io, ie, False, True, ((a,), (b,))))
@@ -164,7 +170,7 @@ def scenarios(tier):
         out.append((1, 1, False, True, (("unlink",), ("recv_all",))))
     else:
         inits = [(0, 0), (1, 0), (2, 0), (0, 1), (1, 1), (2, 1)]
-        ops = ["feed_out", "feed_err", "recv1", "recv_all", "recv_err_all", "eof", "unlink"]
+        ops = ["feed_out", "feed_err", "recv1", "recv_all", "recv_err_all", "eof", "unlink", "feed_empty"]
         for (io, ie) in inits:
             for eof0 in (False, True):
                 for a, b in itertools.combinations_with_replacement(ops, 2):
